@@ -1,7 +1,9 @@
 package blockstore
 
 import (
+	"bytes"
 	"context"
+	"io"
 
 	"github.com/ipfs/go-cid"
 	carv2 "github.com/ipld/go-car/v2"
@@ -40,7 +42,8 @@ func vRWOp(rw *ReadWrite, which int, e vEntry, q cid.Cid) {
 func VerifH_C08_BlockstoreRaces() {
 	root := vCidID("root")
 	path := vFSPath("c08.car")
-	rw, err := OpenReadWrite(path, []cid.Cid{root}, carv2.UseWholeCIDs(vBool("useWholeCIDs")))
+	useWhole := vBool("useWholeCIDs")
+	rw, err := OpenReadWrite(path, []cid.Cid{root}, carv2.UseWholeCIDs(useWhole))
 	vAssert("open", err == nil)
 	first := vEntry{vCidT("first"), []byte{7}}
 	vAssume(first.c.Prefix().MhType != 0)
@@ -50,6 +53,9 @@ func VerifH_C08_BlockstoreRaces() {
 	e2 := vEntry{vCidT("e2"), []byte{2}}
 	vAssume(e1.c.Prefix().MhType != 0 && e2.c.Prefix().MhType != 0)
 	vAssume(vValidBlock(e1.c, e1.data) && vValidBlock(e2.c, e2.data))
+	if vChoose("sameBlock", 2) == 1 {
+		e2 = e1 // both calls concern one block: de-duplication must hold across them
+	}
 	opA := vChoose("opA", 7)
 	opB := vChoose("opB", 7)
 	vAssume(opA <= opB)
@@ -68,7 +74,36 @@ func VerifH_C08_BlockstoreRaces() {
 			func() { vRWOp(rw, opB, e2, first.c) },
 		)
 	}
-	vRaceCheck("blockstore")
+	opNames := []string{"put", "has", "get", "getsize", "allkeys", "roots", "finalize"}
+	vRaceCheck("blockstore-" + opNames[opA] + "-" + opNames[opB])
+	// outcome under whatever schedule ran: a well-formed archive with the seed block and each
+	// distinct key at most once
+	rw.Finalize()
+	img, ok := vFSReadFile(path)
+	vAssert("file-readable", ok)
+	br, berr := carv2.NewBlockReader(bytes.NewReader(img))
+	vAssert("outcome-is-an-archive", berr == nil)
+	var seen []cid.Cid
+	foundFirst := false
+	for i := 0; i < 5; i++ {
+		blk, err := br.Next()
+		if err == io.EOF {
+			break
+		}
+		vAssert("outcome-sections-intact", err == nil)
+		for _, s := range seen {
+			same := vBytesEq(s.Hash(), blk.Cid().Hash())
+			if useWhole {
+				same = s.Equals(blk.Cid())
+			}
+			vAssert("each-distinct-block-once", !same)
+		}
+		seen = append(seen, blk.Cid())
+		if blk.Cid().Equals(first.c) {
+			foundFirst = true
+		}
+	}
+	vAssert("seed-block-kept", foundFirst)
 	vCover("put-vs-put", opA == 0 && opB == 0)
 	vCover("allkeys-vs-put", opA == 0 && opB == 4)
 	vCover("finalize-vs-get", opA == 2 && opB == 6)
